@@ -22,6 +22,8 @@ LEVEL_TEXT = ('Decides, for all paths of the engine code: the cut flag is writte
               'are not decided.')
 TECHNIQUE += '; path rule for the cut itself (every path of cut() sets the flag of the current frame before pruning), derived frame classification by frame signature (kind, exception family, closing operations, net depth) with the users of state-dropping wrappers checked to be scopes, rule boundaries or flag-forwarding (isolate, skipgroup), element-behind-wrapper clause for closures'
 LEVEL_TEXT += ' Added clauses: cut() sets the flag on every path; a frame pusher written with explicit push/merge/undo is classified by its exit signature; every user of a wrapper that drops the flag (statescope) is a scope of its own, a rule boundary, or hands the flag on (isolate, skipgroup); the element of a closure is evaluated directly in the repetition frame, not behind an optional.'
+TECHNIQUE += '; transparent frames derived (any frame pusher that stores the flag of its own frame into the enclosing one is verified like isolate), flag-dropping frames the generator emits around non-scope constructs are violations'
+LEVEL_TEXT += ' Added clause: group() of the generated runtime hands a cut on (it is not a cut scope).'
 LEVEL_NOTE = ('Oracle: docs/syntax.rst section on ~ (A->[x] == B->x|e, A->{x} == B->xB|e, join == e {s ~ e}). '
               'contextmanager throws the body exception at the yield.')
 EXPLANATION = ('Static analysis of /repo sources, TatSu not imported. Each scope construct is executed abstractly '
